@@ -48,8 +48,7 @@ Proof.
   intros. destruct (addr_eqb a a') eqn:E.
   - apply addr_eqb_eq in E; subst a'. destruct (hget h a) eqn:G.
     + eapply hget_hset_same; eauto.
-    + unfold hget, hset in *. destruct a as [r i]; cbn in *. rewrite nth_set_arena_same.
-      apply nth_error_None. rewrite length_upd. apply nth_error_None. assumption.
+    + apply hget_none. apply hgetv_hset_none. apply hget_none. assumption.
   - apply addr_eqb_neq in E. apply hget_hset_other; assumption.
 Qed.
 
@@ -154,7 +153,7 @@ Proof.
   assert (Tx : tg x = TFree) by (eapply inv_free; eauto).
   assert (HE : Ext tg h (set_tag tg x t) h1).
   { intros a Fa. assert (a <> x) by neq. rewrite set_tag_other by assumption. split; [assumption|].
-    erewrite (hget_halloc_old _ _ _ _ _ _ a Ha) by assumption. apply oeqv_refl. }
+    erewrite (hgetv_halloc_old _ _ _ _ _ _ a Ha) by assumption. apply veqv_refl. }
   split; [|assumption].
   eapply inv_frame with (W := [x]); eauto.
   - intros a Hn. assert (a <> x) by (intros ->; apply Hn; left; reflexivity).
@@ -182,16 +181,17 @@ Qed.
 (* a write that keeps all tags: W = [x] *)
 Lemma step_write : forall tg h x c0 c,
   Inv tg h -> hget h x = Some c0 ->
-  (tg x = TFrozen -> cell_eqv c0 c) ->
+  (tg x = TFrozen -> cell_eqv c0 c /\ exists r, c0 = CRdr r) ->
   (Ext tg h tg (hset h x c) -> cell_ok_at tg (hset h x c) x) ->
   (forall b, b <> x -> tg b = TAsm -> tg x = TOwned b -> keeps_owned tg h tg (hset h x c) b) ->
   Step tg h tg (hset h x c).
 Proof.
   intros * HI Hx Hf Hok Hk.
   assert (HE : Ext tg h tg (hset h x c)).
-  { intros a Fa. split; [assumption|]. rewrite hget_hset. destruct (addr_eqb x a) eqn:E.
-    - apply addr_eqb_eq in E; subst a. rewrite Hx. cbn. auto.
-    - apply oeqv_refl. }
+  { intros a Fa. split; [assumption|]. destruct (addr_dec x a) as [<-|Hn].
+    - apply hget_some in Hx. destruct Hx as [v Hx]. rewrite Hx. erewrite hgetv_hset_same by eauto.
+      cbn. destruct (Hf Fa) as [E R]. split; [assumption | right; assumption].
+    - rewrite hgetv_hset_other by assumption. apply veqv_refl. }
   split; [|assumption].
   eapply inv_frame with (W := [x]); eauto.
   - intros a Hn. assert (x <> a) by (intros ->; apply Hn; left; reflexivity).
@@ -280,8 +280,7 @@ Lemma asm_ok_hset_asm : forall tg h a c b v, Inv tg h -> tg a = TAsm -> hget h a
 Proof.
   intros * HI Ta Hn Hok.
   assert (HE : Ext tg h tg (hset h a c)).
-  { intros y Fy. split; [assumption|]. rewrite hget_hset. assert (E : addr_eqb a y = false) by (apply addr_eqb_neq; neq).
-    rewrite E. apply oeqv_refl. }
+  { intros y Fy. split; [assumption|]. rewrite hgetv_hset_other by neq. apply veqv_refl. }
   eapply asm_ok_keep; eauto. apply keeps_owned_untouched. intros y Hy.
   split; [reflexivity|]. apply hget_hset_other. neq.
 Qed.
@@ -302,7 +301,8 @@ Qed.
 Lemma step_write_rdr : forall tg h x r r',
   Inv tg h -> tg x = TFrozen -> hget h x = Some (CRdr r) -> rdr_eqv r r' -> Step tg h tg (hset h x (CRdr r')).
 Proof.
-  intros * HI Tx Hx Hr. eapply step_write; eauto.
+  intros * HI Tx Hx Hr. apply (step_write tg h x (CRdr r) (CRdr r') HI Hx).
+  - intros _. split; [exact Hr | eauto].
   - intros HE. unfold cell_ok_at. rewrite Tx. exists (CRdr r'). split.
     + rewrite hget_hset, addr_eqb_refl, Hx. reflexivity.
     + destruct (inv_frozen _ _ _ HI Tx) as [c [Hc Hok]]. rewrite Hx in Hc. inversion Hc; subst.
@@ -328,7 +328,7 @@ Proof.
   assert (HE : Ext tg h tg' h').
   { intros y Fy. assert (~ In y xs) by (intros F; apply Hxs in F; congruence).
     unfold tg'. rewrite set_tags_out by assumption. split; [assumption|].
-    rewrite Hh by neq. apply oeqv_refl. }
+    unfold h'. rewrite hgetv_hset_other by neq. apply veqv_refl. }
   destruct (Hok tg' h' eq_refl eq_refl HE) as [Hfz Hasm]; auto.
   { intros; unfold tg'; apply set_tags_out; assumption. }
   { intros; unfold tg'; apply set_tags_in; assumption. }
